@@ -700,6 +700,24 @@ func (e *SpecEnv) evalCall(x SCall) SV {
 	case "zipData":
 		_, _, _, _, zdata, _ := ioHeaps(e.G)
 		return SV{Term: fmt.Sprintf("(select %s %s)", e.Cur.Heap(zdata), arg(0).Term), Typ: types.NewSlice(types.Typ[types.Byte])}
+	case "sbContent":
+		// sbContent(b): the text accumulated so far in the local strings.Builder b (ghost)
+		return SV{Term: fmt.Sprintf("(select %s %s)", e.Cur.Heap(sbHeap(e.G)), e.refOf(arg(0))), Typ: types.Typ[types.String]}
+	case "evCount":
+		// evCount("name"): number of events in the named ghost sequence
+		id, ok := x.Args[0].(SStrLit)
+		if !ok {
+			e.fail("evCount wants a string literal")
+		}
+		n, _ := gseqHeaps(e.G, id.V)
+		return SV{Term: e.Cur.Heap(n), Typ: intT}
+	case "evAt":
+		id, ok := x.Args[0].(SStrLit)
+		if !ok {
+			e.fail("evAt wants a string literal")
+		}
+		_, sq := gseqHeaps(e.G, id.V)
+		return SV{Term: fmt.Sprintf("(select %s %s)", e.Cur.Heap(sq), arg(1).Term), Typ: types.NewInterfaceType(nil, nil)}
 	case "xmlRem":
 		// ghost: number of tokens the xml decoder can still deliver (finite input)
 		return SV{Term: e.Cur.Heap(xmlRemHeap(e.G)), Typ: intT}
@@ -782,6 +800,23 @@ func (e *SpecEnv) evalCall(x SCall) SV {
 			}
 		}
 		return SV{Term: e.G.unchangedAll(e.Old, e.Cur, ex), Typ: boolT}
+	}
+	if strings.HasPrefix(x.Fn, "strings.") || strings.HasPrefix(x.Fn, "filepath.") {
+		// library functions the executor models as uninterpreted pure functions: the same symbol in specs
+		sym := strings.ReplaceAll(x.Fn, ".", "_")
+		res := map[string]types.Type{"strings.Contains": boolT, "strings.HasPrefix": boolT, "strings.HasSuffix": boolT, "strings.EqualFold": boolT,
+			"strings.Index": intT, "strings.Count": intT, "strings.LastIndex": intT}[x.Fn]
+		if res == nil {
+			res = types.Typ[types.String]
+		}
+		var sorts, ts []string
+		for i := range x.Args {
+			v := arg(i)
+			sorts = append(sorts, e.G.TE.SortOf(v.Typ))
+			ts = append(ts, v.Term)
+		}
+		uf := e.G.UF(sym, sorts, e.G.TE.SortOf(res))
+		return SV{Term: fmt.Sprintf("(%s %s)", uf, strings.Join(ts, " ")), Typ: res}
 	}
 	if pf, ok := e.G.Pures[e.Pkg.Name()+"."+x.Fn]; ok {
 		return e.callPure(pf, x)
